@@ -212,7 +212,7 @@ theorem c_packed12_set_get (ws : List Nat) (hw : WordsOK 32 ws) (i v : Nat) (hi 
 open Varint.Gen.C Varint.Bridge Varint.Bridge.Bits Varint.Bridge.Packed in
 /-- **sorted-array semantics on the translated C** (`varintPacked12Member`): on a sorted array of `len` < 2^31 elements
     the result is non-negative exactly when the value is present, and then it is the index of the FIRST equal element -/
-theorem c_packed12_member (ws : List Nat) (hw : WordsOK 32 ws) (len v : Nat) (hlen : len < 2 ^ 31)
+theorem c_packed12_member (ws : List Nat) (hw : WordsOK 32 ws) (len v : Nat) (hlen : len < 2 ^ 32)
     (hsorted : (elems 32 12 ws len).Pairwise (· ≤ ·)) (fuel : Nat) (hfu : len < fuel) :
     ∃ r : Int, packed12Member fuel (memOf ws) len v = some r ∧ (r ≥ 0 ↔ v ∈ elems 32 12 ws len) ∧
       (r ≥ 0 → ∃ m : Nat, r = (m : Int) ∧ m < len ∧ packed12Get (memOf ws) m = v ∧
@@ -228,7 +228,7 @@ theorem c_packed12_member (ws : List Nat) (hw : WordsOK 32 ws) (len v : Nat) (hl
 open Varint.Gen.C Varint.Bridge Varint.Bridge.Bits Varint.Bridge.Packed in
 /-- **`varintPacked12InsertSorted` on the translated C**: every store falls inside the slot array, and the array it
     leaves is sorted and holds exactly one more copy of `v` -/
-theorem c_packed12_insert_sorted (ws : List Nat) (hw : WordsOK 32 ws) (len v : Nat) (hlen : len < 2 ^ 31)
+theorem c_packed12_insert_sorted (ws : List Nat) (hw : WordsOK 32 ws) (len v : Nat) (hlen : len < 2 ^ 32)
     (hf : FitsN 32 12 ws (len + 1)) (hv : v < 2 ^ 12) (hsorted : (elems 32 12 ws len).Pairwise (· ≤ ·))
     (fuel : Nat) (hfu : len < fuel) :
     ∃ st, packed12InsertSorted fuel (memOf ws) len v = some st ∧ (∀ p ∈ st, p.1 < ws.length) ∧
@@ -260,7 +260,7 @@ theorem c_packed12_insert_delete (ws : List Nat) (hw : WordsOK 32 ws) (len off v
 open Varint.Gen.C Varint.Bridge Varint.Bridge.Bits Varint.Bridge.Packed in
 /-- **`varintPacked12DeleteMember` on the translated C**: present ⇒ true and the first occurrence is erased, the rest
     stays sorted; absent ⇒ false and not a single store -/
-theorem c_packed12_delete_member (ws : List Nat) (hw : WordsOK 32 ws) (len v : Nat) (hlen : len < 2 ^ 31)
+theorem c_packed12_delete_member (ws : List Nat) (hw : WordsOK 32 ws) (len v : Nat) (hlen : len < 2 ^ 32)
     (hf : FitsN 32 12 ws len) (hsorted : (elems 32 12 ws len).Pairwise (· ≤ ·)) (fuel : Nat) (hfu : len < fuel) :
     ∃ r st, packed12DeleteMember fuel (memOf ws) len v = some (r, st) ∧ (∀ p ∈ st, p.1 < ws.length) ∧
       (v ∈ elems 32 12 ws len → r = 1 ∧
@@ -336,7 +336,7 @@ theorem c_packed13_set_get (ws : List Nat) (hw : WordsOK 32 ws) (i v : Nat) (hi 
 open Varint.Gen.C Varint.Bridge Varint.Bridge.Bits Varint.Bridge.Packed13 in
 /-- **sorted-array semantics on the translated C** (`varintPacked13Member`): on a sorted array of `len` < 2^31 elements
     the result is non-negative exactly when the value is present, and then it is the index of the FIRST equal element -/
-theorem c_packed13_member (ws : List Nat) (hw : WordsOK 32 ws) (len v : Nat) (hlen : len < 2 ^ 31)
+theorem c_packed13_member (ws : List Nat) (hw : WordsOK 32 ws) (len v : Nat) (hlen : len < 2 ^ 32)
     (hsorted : (elems 32 13 ws len).Pairwise (· ≤ ·)) (fuel : Nat) (hfu : len < fuel) :
     ∃ r : Int, packed13Member fuel (memOf ws) len v = some r ∧ (r ≥ 0 ↔ v ∈ elems 32 13 ws len) ∧
       (r ≥ 0 → ∃ m : Nat, r = (m : Int) ∧ m < len ∧ packed13Get (memOf ws) m = v ∧
@@ -352,7 +352,7 @@ theorem c_packed13_member (ws : List Nat) (hw : WordsOK 32 ws) (len v : Nat) (hl
 open Varint.Gen.C Varint.Bridge Varint.Bridge.Bits Varint.Bridge.Packed13 in
 /-- **`varintPacked13InsertSorted` on the translated C**: every store falls inside the slot array, and the array it
     leaves is sorted and holds exactly one more copy of `v` -/
-theorem c_packed13_insert_sorted (ws : List Nat) (hw : WordsOK 32 ws) (len v : Nat) (hlen : len < 2 ^ 31)
+theorem c_packed13_insert_sorted (ws : List Nat) (hw : WordsOK 32 ws) (len v : Nat) (hlen : len < 2 ^ 32)
     (hf : FitsN 32 13 ws (len + 1)) (hv : v < 2 ^ 13) (hsorted : (elems 32 13 ws len).Pairwise (· ≤ ·))
     (fuel : Nat) (hfu : len < fuel) :
     ∃ st, packed13InsertSorted fuel (memOf ws) len v = some st ∧ (∀ p ∈ st, p.1 < ws.length) ∧
@@ -384,7 +384,7 @@ theorem c_packed13_insert_delete (ws : List Nat) (hw : WordsOK 32 ws) (len off v
 open Varint.Gen.C Varint.Bridge Varint.Bridge.Bits Varint.Bridge.Packed13 in
 /-- **`varintPacked13DeleteMember` on the translated C**: present ⇒ true and the first occurrence is erased, the rest
     stays sorted; absent ⇒ false and not a single store -/
-theorem c_packed13_delete_member (ws : List Nat) (hw : WordsOK 32 ws) (len v : Nat) (hlen : len < 2 ^ 31)
+theorem c_packed13_delete_member (ws : List Nat) (hw : WordsOK 32 ws) (len v : Nat) (hlen : len < 2 ^ 32)
     (hf : FitsN 32 13 ws len) (hsorted : (elems 32 13 ws len).Pairwise (· ≤ ·)) (fuel : Nat) (hfu : len < fuel) :
     ∃ r st, packed13DeleteMember fuel (memOf ws) len v = some (r, st) ∧ (∀ p ∈ st, p.1 < ws.length) ∧
       (v ∈ elems 32 13 ws len → r = 1 ∧
